@@ -819,6 +819,16 @@ func collFor(r *Rec, prop string, alias map[string]string) {
 	r.Mark("collectives done")
 }
 
+// spendFor runs the spending-pool scenarios (claims, distributions, the dynamic-rate EndBlocker at its edges) inside the
+// check of another property: C06 - no state reachable through them makes the EndBlocker panic.
+func spendFor(r *Rec, prop string) {
+	r.OnlyProp = prop
+	h := c18Setup(r)
+	h.spendScenarios()
+	r.OnlyProp = ""
+	r.Mark("spending done")
+}
+
 // ubiFor runs the UBI scenarios (records around their period boundaries, failing deposits, the annual gate - also closing
 // in the middle of a block) inside the check of another property: C13 bounds what UBI may mint.
 func ubiFor(r *Rec, prop string) {
